@@ -346,12 +346,13 @@ def snapAt (now : Nat) (t : DTask) : Snap :=
 abbrev KnownUser (u : Nat) : Prop := Known ({ me := 0 } : St) u
 
 /-- a spool a new daemon restores completely: ascending streams, one task per uid over all files, every task
-in the file of its owner, owners known -/
+in the file of its owner, owners known, every task with a usable UID (one without is turned down) -/
 structure FilesOK (files : List (Nat × List DTask)) : Prop where
   sorted : ∀ f ∈ files, ∀ t ∈ f.2, t.occ.Pairwise (· ≤ ·)
   uids : ((files.flatMap (·.2)).map (·.uid)).Nodup
   owner : ∀ f ∈ files, ∀ t ∈ f.2, t.owner = f.1
   known : ∀ f ∈ files, ∀ t ∈ f.2, KnownUser t.owner
+  uidNe : ∀ f ∈ files, ∀ t ∈ f.2, t.uid ≠ ""
 
 theorem loaded_dur (s : St) (t0 : DTask) : (loaded s t0).dur = t0.dur := by
   unfold loaded
@@ -389,17 +390,19 @@ theorem reload_eq (files : List (Nat × List DTask)) (me now : Nat) :
   rfl
 
 theorem loadStep_new {s : St} {t : DTask} (hk : Known s t.owner) (hme : s.me = 0 ∨ t.owner = s.me)
-    (hf : s.find t.uid = none) :
+    (hf : s.find t.uid = none) (hu : t.uid ≠ "") :
     (loadStep s t).tasks = s.tasks ++ [loaded s (fresh s.nextSid t.uid t.owner t.maxSimul t.dur t.occ)] ∧
     (loadStep s t).me = s.me ∧ (loadStep s t).users = s.users ∧ (loadStep s t).now = s.now := by
   unfold loadStep
   rw [inject_eq]
-  simp only [injectSpec, effOwner_spool hk hme, injectAs, hf, Bool.not_true, Bool.false_eq_true, if_false]
+  have hue : (t.uid == "") = false := by simpa using hu
+  simp only [injectSpec, effOwner_spool hk hme, injectAs, hf, hue, Bool.or_false, Bool.not_true, Bool.false_eq_true,
+    if_false]
   simp
 
 /-- loading tasks with new, pairwise distinct uids appends one record per task -/
 theorem load_all : ∀ (L : List DTask) (s : St),
-    (∀ t ∈ L, Known s t.owner ∧ (s.me = 0 ∨ t.owner = s.me)) →
+    (∀ t ∈ L, Known s t.owner ∧ (s.me = 0 ∨ t.owner = s.me) ∧ t.uid ≠ "") →
     (L.map (·.uid)).Nodup → (∀ t ∈ L, ∀ x ∈ s.tasks, x.uid ≠ t.uid) →
     (∀ x ∈ s.tasks, x.inTable = true) →
     (∀ x ∈ (L.foldl loadStep s).tasks, x.inTable = true) ∧
@@ -416,7 +419,8 @@ theorem load_all : ∀ (L : List DTask) (s : St),
       rw [find_eq_none_iff]
       intro x hx _
       exact hu t List.mem_cons_self x hx
-    obtain ⟨h1, h2, h3, h4⟩ := loadStep_new (hk t List.mem_cons_self).1 (hk t List.mem_cons_self).2 hf
+    obtain ⟨h1, h2, h3, h4⟩ := loadStep_new (hk t List.mem_cons_self).1 (hk t List.mem_cons_self).2.1 hf
+      (hk t List.mem_cons_self).2.2
     have hlk := loaded_keeps s (fresh s.nextSid t.uid t.owner t.maxSimul t.dur t.occ)
     rw [List.foldl_cons]
     have := ih (loadStep s t)
@@ -455,7 +459,7 @@ theorem reload_tasks {files : List (Nat × List DTask)} (h : FilesOK files) (me 
     (fun t ht => by
       rw [List.mem_flatMap] at ht
       obtain ⟨f, hf, htf⟩ := ht
-      refine ⟨h.known f hf t htf, ?_⟩
+      refine ⟨h.known f hf t htf, ?_, h.uidNe f hf t htf⟩
       rcases hme with e | e
       · exact Or.inl e
       · exact Or.inr (e f hf t htf))
